@@ -572,6 +572,8 @@ theorem RInv.step {c : Cfg} {s0 s : St} (ok : CfgOK c s0) (wf : DiskWF s0.disk) 
     (x : XInv s0 s) (r : RInv c s0 s) (e : Ev) : RInv c s0 (step c s e) := by
   cases e with
   | nodeDone n => exact r.nodeDone n
+  | nodeFailed n => exact r
+  | nodeReset n => exact r
   | removeEmpty =>
     exact r.frame (foldRemove_frame (fun a => (c.namesOf a).isEmpty) s.dom s)
       (foldRemove_sh (fun a => (c.namesOf a).isEmpty) s.dom s)
